@@ -73,11 +73,68 @@ func usesExtensions(j *job.Job, s *job.Sink, c int64) {
 	}
 }
 
+// foreignPrefixUses: a prefix is bound per file. Module m imports lib under a prefix that its
+// submodule s declares as its belongs-to prefix (so in s.yang it names m itself). A uses
+// written in m.yang with that prefix names a grouping of lib and nothing else: lib's
+// grouping when there is one (also when s has one of the same name), an unknown grouping
+// when there is none (also when s has one).
+func foreignPrefixUses(j *job.Job, s *job.Sink, c int64) {
+	r := prng.For(j.Seed, "C06", "foreign-prefix-uses", c)
+	pfx := []string{"x", "l", "zz"}[r.Intn(3)]
+	inLib := r.Intn(2) == 0
+	inSub := r.Intn(3) > 0
+	lib := "module lib { namespace \"urn:lib\"; prefix l; grouping other { leaf o { type string; } }"
+	if inLib {
+		lib += " grouping same { leaf froml { type string; } }"
+	}
+	lib += " }\n"
+	sub := fmt.Sprintf("submodule s { belongs-to m { prefix %s; } grouping onlys { leaf os { type string; } }", pfx)
+	if inSub {
+		sub += " grouping same { leaf wrong { type string; } }"
+	}
+	sub += fmt.Sprintf(" container sc { uses %s:onlys; uses onlys2; } grouping onlys2 { leaf os2 { type string; } } }\n", pfx)
+	m := fmt.Sprintf("module m { namespace \"urn:m\"; prefix m; import lib { prefix %s; } include s; container c { uses %s:same; } container d { uses %s:other; uses onlys; uses m:onlys2; } }\n", pfx, pfx, pfx)
+	cs := map[string]string{"lib.yang": lib, "s.yang": sub, "m.yang": m}
+	s.Count("foreign_prefix_uses_cases", 1)
+	ms := yang.NewModules()
+	for _, n := range [][2]string{{"lib.yang", lib}, {"s.yang", sub}, {"m.yang", m}} {
+		if err := ms.Parse(n[1], n[0]); err != nil {
+			s.Violation(c, j.CaseID(c), "C06.independence", "unexpected-error", err.Error(), cs, nil)
+			return
+		}
+	}
+	errs := ms.Process()
+	switch {
+	case !inLib && len(errs) == 0:
+		got := []string{}
+		for k := range yang.ToEntry(ms.Modules["m"]).Dir["c"].Dir {
+			got = append(got, k)
+		}
+		s.Violation(c, j.CaseID(c), "C06.independence", "foreign-prefix-resolved-in-a-submodule", fmt.Sprintf("uses %s:same in m.yang (where %s names lib, which has no such grouping) was accepted; /m/c holds %v", pfx, pfx, got), cs, map[string]any{"submodule_has_the_name": inSub})
+	case inLib && len(errs) > 0:
+		s.Violation(c, j.CaseID(c), "C06.independence", "unexpected-error", errs[0].Error(), cs, nil)
+	case inLib:
+		root := yang.ToEntry(ms.Modules["m"])
+		if root.Dir["c"].Dir["froml"] == nil || root.Dir["c"].Dir["wrong"] != nil {
+			s.Violation(c, j.CaseID(c), "C06.independence", "foreign-prefix-resolved-in-a-submodule", fmt.Sprintf("uses %s:same in m.yang did not expand the grouping of lib", pfx), cs, map[string]any{"submodule_has_the_name": inSub})
+		}
+		for _, want := range [][2]string{{"d", "o"}, {"d", "os"}, {"d", "os2"}, {"sc", "os"}, {"sc", "os2"}} {
+			if root.Dir[want[0]] == nil || root.Dir[want[0]].Dir[want[1]] == nil {
+				s.Violation(c, j.CaseID(c), "C06.independence", "missing-copy", fmt.Sprintf("/m/%s/%s is missing", want[0], want[1]), cs, nil)
+				return
+			}
+		}
+	}
+}
+
 // Run generates cases.
 func Run(j *job.Job, s *job.Sink) {
 	for c := j.Start; c < j.Start+j.Count; c++ {
 		if c%8 == 0 {
 			usesExtensions(j, s, c)
+		}
+		if c%8 == 1 {
+			foreignPrefixUses(j, s, c)
 		}
 		r := prng.For(j.Seed, "C06", "independence", c)
 		nd := 1 + r.Intn(5)
